@@ -38,7 +38,7 @@ LANGS = ['darr', 'idl', 'julia_ver0', 'julia_ver1', 'mathematica', 'matlab', 'ma
 FOREIGN = ['idl', 'julia_ver0', 'julia_ver1', 'mathematica', 'matlab', 'maple', 'R', 'scilab']
 SHAPES = [(5,), (1,), (2, 3), (3, 1), (1, 4), (2, 3, 4), (4, 1, 2), (2, 3, 4, 5), (1, 2, 1, 3)]
 PATHMODES = ['rel', 'base', 'abs']
-MUST_HIT = ['after-history-on-live-handle'] + ['lang:' + l for l in LANGS] + ['path:' + p for p in PATHMODES] + ['offer-table', 'withheld', 'empty-array', 'rank:1', 'rank:2',
+MUST_HIT = ['after-history-on-live-handle', 'path:via-symlink-dotdot', 'path:handle-opened-by-relative-path'] + ['lang:' + l for l in LANGS] + ['path:' + p for p in PATHMODES] + ['offer-table', 'withheld', 'empty-array', 'rank:1', 'rank:2',
                                                                               'rank:3', 'rank:4', 'complex', 'float16', 'bigendian']
 COLUMN = {'IDL': ['idl'], 'Julia': ['julia_ver0', 'julia_ver1'], 'Maple': ['maple'], 'Mathematica': ['mathematica'], 'Matlab': ['matlab'],
           'Numpy': ['numpy', 'numpymemmap'], 'Python': ['python'], 'R': ['R'], 'Scilab': ['scilab']}
@@ -227,10 +227,31 @@ def _exec_prog(ctx, spec):
             a.iterappend([ref[1:2], ref[2:]])
         else:
             a = darr.asarray(apath, ref)
+        if spec.get('via') == 'symlink-dotdot':
+            # the same array, reached through <other>/deep/sl/../x.darr where sl is a symlink to the array's parent's child:
+            # collapsing '..' lexically would name <other>/deep/x.darr (a decoy) instead
+            out.cls('path:via-symlink-dotdot')
+            os.makedirs(os.path.join(other, 'deep'))
+            os.makedirs(os.path.join(root, 'data', 'sub'))
+            os.symlink(os.path.join(root, 'data', 'sub'), os.path.join(other, 'deep', 'sl'))
+            darr.asarray(os.path.join(other, 'deep', 'x.darr'), ref[::-1].copy() if ref.shape[0] > 1 else ref + 1)
+            a = darr.Array(os.path.join(other, 'deep', 'sl', '..', 'x.darr'), accessmode='r')
+        elif spec.get('via') == 'relative':
+            out.cls('path:handle-opened-by-relative-path')
+            old = os.getcwd()
+            os.chdir(root)
+            try:
+                ar = darr.Array(os.path.join('data', 'x.darr') if spec.get('seed', 1) % 2 else __import__('pathlib').Path('data') / 'x.darr')
+                relcode = ar.readcode(lang, abspath=(pm == 'abs'), basepath=('data/x.darr' if pm == 'base' else None))
+                ar = None
+            finally:
+                os.chdir(old)
         basepath = 'data/x.darr'
         import pathlib
         bparg = {0: basepath, 1: pathlib.Path(basepath), 2: basepath + '/'}[spec.get('seed', 1) % 3]
         code = a.readcode(lang, abspath=(pm == 'abs'), basepath=(bparg if pm == 'base' else None))
+        if spec.get('via') == 'relative':
+            code = relcode        # generated while the working directory was the one the relative path refers to
         if code is None:
             out.nontrivial = False
             return out
@@ -315,6 +336,8 @@ def prog_specs(seeds=(1,)):
             yield {'f': 'prog', 't': t, 'bo': bo, 'shape': list(shape), 'lang': lang, 'pm': pm, 'seed': seed}
     for t, shape, lang in itertools.product(NUMTYPES, [(4,), (3, 2)], LANGS):
         yield {'f': 'prog', 't': t, 'bo': '>', 'shape': list(shape), 'lang': lang, 'pm': 'rel', 'seed': 1, 'churn': True}
+    for t, lang, pm, via in itertools.product(['int16', 'float64', 'complex64'], LANGS, PATHMODES, ['symlink-dotdot', 'relative']):
+        yield {'f': 'prog', 't': t, 'bo': '<', 'shape': [3, 2], 'lang': lang, 'pm': pm, 'seed': 2, 'via': via}
     for t, shape, lang in itertools.product(NUMTYPES, [(0,), (0, 3)], LANGS):
         yield {'f': 'prog', 't': t, 'bo': '<', 'shape': list(shape), 'lang': lang, 'pm': 'rel', 'seed': 1}
 
@@ -329,7 +352,8 @@ def st_prog(draw):
     rank = draw(st.integers(1, 4))
     return {'f': 'prog', 't': draw(st.sampled_from(NUMTYPES)), 'bo': draw(st.sampled_from('<>')),
             'shape': [draw(st.integers(1, 6)) for _ in range(rank)], 'lang': draw(st.sampled_from(LANGS)),
-            'pm': draw(st.sampled_from(PATHMODES)), 'seed': draw(st.integers(0, 2 ** 20)), 'churn': draw(st.booleans())}
+            'pm': draw(st.sampled_from(PATHMODES)), 'seed': draw(st.integers(0, 2 ** 20)), 'churn': draw(st.booleans()),
+            'via': draw(st.sampled_from([None, None, 'symlink-dotdot', 'relative']))}
 
 
 def task_enum(ctx, col, shard, seeds):
